@@ -34,7 +34,7 @@ func main() {
 func (world) Name() string      { return "world" }
 func (world) CoqModule() string { return "WorldAll" }
 func (world) Monitors() []string {
-	return []string{"C01", "C03", "C04", "C06", "C07", "C08", "C16", "C16w"}
+	return []string{"C01", "C03", "C04", "C06", "C07", "C08", "C16", "C16w", "C16x"}
 }
 func (world) Rule() string {
 	return "state-aware weighted random walks over one experiment: configuration drawn from max in {nil,1..6} x par 1..3 x maxFailed x goal " +
@@ -541,8 +541,8 @@ func (world) Run(input any) kit.Case {
 	}
 	if staleRestart {
 		// F18: an experiment reconcile ran on a cached completed experiment after the stored one had been restarted
-		if k := kit.KeyIf("C04", "cleanup-on-stale-completed-experiment", h.Cfg.Resume == "FromVolume"); k != "" {
-			c.Keys["C04"] = k
+		if k := kit.KeyIf("C16", "cleanup-on-stale-completed-experiment", h.Cfg.Resume == "FromVolume"); k != "" && c.Keys["C16"] == "" {
+			c.Keys["C16"] = k
 		}
 	}
 	c.Nontrivial = maxTrials >= 3 && (verdict || stats["fault"] > 0 || stats["abort"] > 0 || s.Conflicts > 0)
